@@ -132,8 +132,39 @@ var textAtoms = []string{
 	"\xff", "\xe6\x97", "\x00", // invalid UTF-8, NUL
 }
 
+// lines whose rune count, byte count and display width are ordered
+// differently: the width of a multi-line cell is the largest per-line measure
+// whatever the order and make-up of its lines
+var measureLines = []string{
+	"abcd",                            // 4 runes, 4 cells
+	"\uff42\uff42\uff42",              // 3 runes, 6 cells (full-width)
+	"\u65e5\u672c",                    // 2 runes, 4 cells
+	"e\u0301e\u0301e\u0301e\u0301",    // 8 runes, 4 cells (combining)
+	"\u200b\u200b\u200b\u200b\u200bx", // 6 runes, 1 cell (zero-width)
+	"abcdefg",                         // 7 runes, 7 cells
+	"\U0001F468\u200d\U0001F469\u200d\U0001F467x", // 6 runes, few cells (ZWJ sequence)
+	"",                         // empty
+	"\uff57\uff57\uff57\uff57", // 4 runes, 8 cells
+	"\x1b[1mzz\x1b[0m",         // escape codes
+}
+
+func mixedLines(r *RNG) string {
+	n := 2 + r.Intn(3)
+	ls := make([]string, n)
+	for i := range ls {
+		ls[i] = pick(r, measureLines)
+	}
+	s := strings.Join(ls, "\n")
+	if r.Pct(20) {
+		s += "\n"
+	}
+	return s
+}
+
 func textString(r *RNG) string {
 	switch {
+	case r.Pct(12):
+		return mixedLines(r)
 	case r.Pct(55):
 		return pick(r, textAtoms)
 	case r.Pct(70):
